@@ -355,7 +355,7 @@ class QlassF(QCircuitWrapper):
 
         def _do_translate(fun_ast, original_f):
             # print(ast.dump(fun_ast, indent=4))
-            fun = ast2ast(fun_ast.body[0])
+            fun = ast2ast(fun_ast.body[0], user_functions=[d[0] for d in defs])
             # print(ast.dump(fun, indent=4))
             fun_name, args, fun_ret, exps = translate_ast(fun, types, defs)
 
